@@ -204,11 +204,11 @@ func (g *c12Gen) item(p string, i int, top bool) string {
 	case "fuse":
 		return "FUSE(o)"
 	case "hash":
-		return fmt.Sprintf("HASH(%s, %s) AS %s", g.pick("hash_arg", p+"s", p+"a", p+"id", "'lit'"), sqlLit(g.pick("hash_fn", "sha1", "sha256", "sha512", "md5")), alias)
+		return fmt.Sprintf("HASH(%s, %s) AS %s", g.pick("hash_arg", p+"s", p+"a", p+"id", "'lit'", p+"o", p+"n"), sqlLit(g.pick("hash_fn", "sha1", "sha256", "sha512", "md5")), alias)
 	case "encode":
 		base := sqlLit(g.pick("enc_base", "base64", "base32", "hex"))
 		if g.pick("enc_round", "enc", "roundtrip") == "enc" {
-			return fmt.Sprintf("ENCODE(%s, %s) AS %s", g.pick("enc_arg", p+"s", p+"a", "'lit'"), base, alias)
+			return fmt.Sprintf("ENCODE(%s, %s) AS %s", g.pick("enc_arg", p+"s", p+"a", "'lit'", p+"o"), base, alias)
 		}
 		return fmt.Sprintf("DECODE(ENCODE(%ss, %s), %s) AS %s", p, base, base, alias)
 	case "fuse_sub":
